@@ -247,10 +247,7 @@ func (c *verifCanon) walk(v reflect.Value) {
 		c.tag('p')
 		c.walk(v.Elem())
 	case reflect.Slice:
-		if v.IsNil() {
-			c.tag('N')
-			return
-		}
+		// a nil slice and an empty one behave alike: same canonical form
 		c.tag('S')
 		n := v.Len()
 		c.u64(uint64(n))
